@@ -113,7 +113,8 @@ let do_jpg line =
           | [] -> failwith "comps" in
         (* arithmetic scans carry "comp:Td:Ta" (conditioning table numbers) instead of Huffman tables *)
         let tdta = List.filter_map (fun t -> match String.split_on_char ':' t with
-                                             | [ _; td; ta ] -> Some (int_of_string td, int_of_string ta) | _ -> None) rest in
+                                             | [ _; td; ta; l; u; k ] -> Some (int_of_string td, int_of_string ta, int_of_string l, int_of_string u, int_of_string k)
+                                             | [ _; td; ta ] -> Some (int_of_string td, int_of_string ta, 0, 1, 5) | _ -> None) rest in
         let (cl, rest2) = comps ncs rest [] in
         let hex = match rest2 with [ x ] -> x | [] -> "" | _ -> failwith "hex" in
         let real = zl (bytes_of_hex hex) in
@@ -130,7 +131,7 @@ let do_jpg line =
         let unflat l = List.map (fun b -> [ b ]) l in
         let nssn = nat_of_int ss and nsen = nat_of_int se and zal = z_of_int al in
         let cur () = cur_mcus fr dst lay in
-        let acs_ = List.map (fun (td, ta) -> { a_dct = z_of_int td; a_act = z_of_int ta; a_L = z_of_int 0; a_U = z_of_int 1; a_K = z_of_int 5 }) tdta in
+        let acs_ = List.map (fun (td, ta, l, u, k) -> { a_dct = z_of_int td; a_act = z_of_int ta; a_L = z_of_int l; a_U = z_of_int u; a_K = z_of_int k }) tdta in
         let (e, d) =
           if arith then begin
             if not prog then
